@@ -16,7 +16,7 @@ Op language (one op per line):
   yield point `chain.between-check-and-stat` (rule-check slots done, statistic slots not yet run)
 * `resume <id>` ⇒ lets that goroutine finish: `pass | block hot | block flow` (`none`: no such parked entry)
 
-Modes: `model` — the code-shaped model `Sentinel.HotConc` (LRU cells, first-touch, re-extraction at exit);
+Modes: `model` — the code-shaped model `Sentinel.HotConc` (LRU cells, re-extraction at exit);
 `oracle` — judges the implementation's own trace against the property: the ledger `live_k(v)` is
 recomputed from the trace (entries answered `pass` with value `v` under rule `k`, not yet exited) and every
 `entry` answer must be `pass ⇔ ∀ concurrency rule k of the resource selecting a value v: live_k(v) < thr_k(v)`.
@@ -129,7 +129,6 @@ structure OPend where
   noClaim : Bool          -- resource was stale at check time
   overAtCheck : Bool
   claimBlock : Bool       -- the property's verdict on the ledger at check time
-  ftAll : Bool            -- … and every violated rule saw the value for the first time (known first-touch region)
   seenBlock : Bool        -- the property's verdict was "block" at some state since the check
   raced : Bool            -- another admission on the resource completed since the check
 
@@ -153,24 +152,23 @@ def viols (s : OSt) (res : String) (as : List Val) (ats : List (String × Val)) 
     let v := o.rule.sel res as ats
     v != Val.nil && !decide ((liveCount s o.rule v : Int) < o.rule.thrOf v)
 
-/-- walks the concurrency rules of `res` in order.  Returns (claimed verdict is "block", every violated rule is a
-    first touch, rules updated with the values the code consults, resource overflowed) -/
+/-- walks the concurrency rules of `res` in order, as `hotspot.Slot.Check` does (the first violated rule ends the
+    loop).  Returns (claimed verdict is "block", rules updated with the values the code consults, resource overflowed) -/
 def judgeRules (s : OSt) (res : String) (as : List Val) (ats : List (String × Val)) :
-    List ORule → Bool → Bool × Bool × List ORule × Bool
-  | [], _ => (false, true, [], false)
+    List ORule → Bool → Bool × List ORule × Bool
+  | [], _ => (false, [], false)
   | o :: os, stopped =>
     let v := o.rule.sel res as ats
     if v = Val.nil then
       let r := judgeRules s res as ats os stopped
-      (r.1, r.2.1, o :: r.2.2.1, r.2.2.2)
+      (r.1, o :: r.2.1, r.2.2)
     else
       let viol := !decide ((liveCount s o.rule v : Int) < o.rule.thrOf v)
-      let fresh := !o.touched.contains v
-      -- the code consults this rule unless an earlier one has already blocked (`stopped`)
-      let o' : ORule := if stopped || !fresh then o else { o with touched := v :: o.touched }
+      -- the code consults this rule (and creates the value's cell) unless an earlier one has already blocked
+      let o' : ORule := if stopped || o.touched.contains v then o else { o with touched := v :: o.touched }
       let overflow := !stopped && decide (o.rule.cap < o'.touched.length)
-      let r := judgeRules s res as ats os (stopped || (viol && !fresh))
-      (viol || r.1, (!viol || fresh) && r.2.1, o' :: r.2.2.1, overflow || r.2.2.2)
+      let r := judgeRules s res as ats os (stopped || viol)
+      (viol || r.1, o' :: r.2.1, overflow || r.2.2)
 
 /-- `capped_sched`: with at most `peak` goroutines inside `api.Entry` at once, admitting this request must leave
     every selected value within `threshold + peak - 1` -/
@@ -189,12 +187,12 @@ def addLive (s : OSt) (id res : String) (as : List Val) (ats : List (String × V
   refreshPend { s with live := { id := id, res := res, args := as, atts := ats } :: s.live } (some res)
 
 /-- the part of a check shared by `entry` and `pentry`: verdict claimed by the property, regions, rule bookkeeping -/
-def checkPhase (s : OSt) (res : String) (as : List Val) (ats : List (String × Val)) : OSt × Bool × Bool × Bool :=
+def checkPhase (s : OSt) (res : String) (as : List Val) (ats : List (String × Val)) : OSt × Bool × Bool :=
   let j := judgeRules s res as ats s.rules false
   let wasOver := s.over.contains res
-  let s1 : OSt := { s with rules := if wasOver then s.rules else j.2.2.1,
-                           over := if j.2.2.2 && !wasOver then res :: s.over else s.over }
-  (s1, j.1, j.2.1, wasOver)
+  let s1 : OSt := { s with rules := if wasOver then s.rules else j.2.1,
+                           over := if j.2.2 && !wasOver then res :: s.over else s.over }
+  (s1, j.1, wasOver)
 
 def stepOracle (s : OSt) (ts : List String) (line : String) : OSt × Option String :=
   let res? := resPart line
@@ -214,14 +212,13 @@ def stepOracle (s : OSt) (ts : List String) (line : String) : OSt × Option Stri
       if s.fb.contains res then
         (fin s, some (if got == "block flow" then "ok" else "bad expected block flow"))
       else
-        let (s1, claimBlock, ftAll, wasOver) := checkPhase s res as ats
+        let (s1, claimBlock, wasOver) := checkPhase s res as ats
         let claim := if claimBlock then "block hot" else "pass"
         let s2 := fin s1
         if got != "pass" && got != "block hot" then (s2, some ("bad unexpected result, claimed " ++ claim))
         else if s.stale.contains res then (s2, some "?")
         else if got == claim then (s2, some "ok")
         else if wasOver then (s2, some "known:cell-evicted")
-        else if got == "pass" && ftAll then (s2, some "known:first-touch-unchecked")
         else (s2, some ("bad claimed " ++ claim))
     | _, _ => (s, some "bad-op")
   | "pentry" :: id :: res :: rest => match parseEntryArgs? rest with
@@ -229,12 +226,12 @@ def stepOracle (s : OSt) (ts : List String) (line : String) : OSt × Option Stri
       if used id then (s, some "bad-op") else
       let s := { s with peak := max s.peak (s.pend.length + 1) }
       let p0 : OPend := { id := id, res := res, args := as, atts := ats, fbAtCheck := false,
-                          noClaim := s.stale.contains res, overAtCheck := false, claimBlock := false, ftAll := true,
+                          noClaim := s.stale.contains res, overAtCheck := false, claimBlock := false,
                           seenBlock := false, raced := false }
       if s.fb.contains res then ({ s with pend := { p0 with fbAtCheck := true } :: s.pend }, none)
       else
-        let (s1, claimBlock, ftAll, wasOver) := checkPhase s res as ats
-        ({ s1 with pend := { p0 with overAtCheck := wasOver, claimBlock := claimBlock, ftAll := ftAll,
+        let (s1, claimBlock, wasOver) := checkPhase s res as ats
+        ({ s1 with pend := { p0 with overAtCheck := wasOver, claimBlock := claimBlock,
                                      seenBlock := claimBlock } :: s1.pend }, none)
     | none => (s, some "bad-op")
   | ["resume", id] => match res? with
@@ -252,7 +249,6 @@ def stepOracle (s : OSt) (ts : List String) (line : String) : OSt × Option Stri
         else if got == "pass" then
           if !violNow then (s1, some "ok")
           else if over then (s1, some "known:cell-evicted")
-          else if p.claimBlock && p.ftAll then (s1, some "known:first-touch-unchecked")
           else if p.raced && !p.claimBlock then
             if withinBound s0 p.res p.args p.atts then (s1, some "known:check-then-act-overshoot")
             else (s1, some "bad overshoot beyond threshold + P - 1")
